@@ -201,6 +201,8 @@ def run(ctx, report):
         for dec, res in inst.results:
             if isinstance(res, LiftError):
                 site = norm(res.node) if res.node is not None and hasattr(res.node, 'lineno') else res.msg
+                if isinstance(res.node, ast.FunctionDef):
+                    site = 'call of %s' % res.node.name          # (a whole function as site: the key must not carry its body)
                 fn_of_site = fname
                 if res.msg.startswith('dict_to_Expr'):
                     fn_of_site = 'dict_to_Expr'
@@ -295,11 +297,15 @@ def run(ctx, report):
 
 
 MUTANTS = [
+    ('float-pop-32bit-zero', 'miasmx/arch/ia32_sem.py', "        if src is None: src = ExprInt64(0)", "        if src is None: src = ExprInt32(0)", 'C11.D3'),
+    ('float-eip-opmode-width', 'miasmx/arch/ia32_sem.py', "    e.append(ExprAff(float_eip, ExprInt32(info.offset)))", "    e.append(ExprAff(float_eip, ExprInt(tab_mode[info.opmode](info.offset))))", 'C11.D3'),
     ('slice-rest-elif', 'miasmx/expression/expression.py', "    if start !=0:\n        rest.append((0, start))\n    if stop < size:", "    if start !=0:\n        rest.append((0, start))\n    elif stop < size:", 'C11.D5'),
     ('aff-slice-unsorted', 'miasmx/expression/expression.py', "all_a = sorted([(src, dst.start, dst.stop)] + rest, key=lambda x:x[1])", "all_a = [(src, dst.start, dst.stop)] + rest", 'C11.D5'),
     ('movzx-slot', 'miasmx/arch/ia32_sem.py', "                                    (b, 0, b.get_size())]))]", "                                    (b, 8, b.get_size())]))]", 'C11.D3'),
     ('xchg-double', 'miasmx/arch/ia32_sem.py', "    e.append(ExprAff(a, b))\n    e.append(ExprAff(b, a))\n    return e\n\ndef movzx", "    e.append(ExprAff(a, b))\n    e.append(ExprAff(a, a))\n    return e\n\ndef movzx", 'C11.D4'),
-    ('lea-unbound', 'miasmx/arch/ia32_sem.py', "    return [ExprAff(a, b.arg)]", "    return [ExprAff(a, bb.arg)]", 'C11.D1'),
+    ('lea-unbound', 'miasmx/arch/ia32_sem.py', "    src = b.arg\n    if src.get_size() > a.get_size():", "    src = bb.arg\n    if src.get_size() > a.get_size():", 'C11.D1'),
+    ('lea16-untruncated', 'miasmx/arch/ia32_sem.py', "        src = src[:a.get_size()]\n    return [ExprAff(a, src)]", "        pass\n    return [ExprAff(a, src)]", 'C11.D3'),
+    ('eip-16bit-destination', 'miasmx/arch/ia32_sem.py', "    else:\n        dst = zeroext32(dst)\n    return ExprAff(eip, dst)", "    return ExprAff(eip, dst)", 'C11.D3'),
     ('bswap-width', 'miasmx/arch/ia32_sem.py', "ExprOp('>>', ExprOp('&', ExprInt_from(a, 0xFF00), a), ExprInt32(8))", "ExprOp('>>', ExprOp('&', ExprInt16(0xFF00), a), ExprInt32(8))", 'C11.D'),
     ('setz-nested', 'miasmx/arch/ia32_sem.py', "def sete(info, a):\n    e = []\n    e.append(ExprAff(a, ExprCond(zf, ExprInt_from(a, 1), ExprInt_from(a, 0))))",
      "def sete(info, a):\n    e = []\n    e.append(ExprAff(a, ExprCond(zf, ExprAff(a, ExprInt_from(a, 1)), ExprInt_from(a, 0))))", 'C11.D2'),
